@@ -352,7 +352,7 @@ func racePlan(g *vlib.Rng) []raceCase {
 				hint = 20 + g.Intn(len(slots)-30) // a class with many slots per page: long free lists, few page links
 			}
 			seed := g.U64()
-			cases = append(cases, raceCase{fmt.Sprintf("race-conc-w%d-%d", w, k), seed, w, 4, 2000, hint})
+			cases = append(cases, raceCase{fmt.Sprintf("race-conc-w%d-%d", w, k), seed, w, 4, 1500, hint})
 		}
 	}
 	return cases
